@@ -27,6 +27,9 @@ structure D where
   sig : List (Id × Nat) := []
   blockedOrder : List Party := []
   seen : Nat := 0             -- events already printed
+  -- op `popq`: workers that have popped their task but whose StartTask message the harness holds back;
+  -- the model enqueues StartTask with the pop, so the driver withdraws it until `step <w>` re-sends it
+  held : List Nat := []
 
 def sortStr (xs : List String) : List String :=
   xs.foldl (fun acc x =>
@@ -117,7 +120,7 @@ def snapshot (d : D) : D × String :=
     | none => s!"p{p}-"
     | some b => s!"p{p}{wireSummary b}")
   let wk := joinWith "," ((s.workers.zipIdx.filter (fun x => x.1.phase != .done)).map fun x =>
-    s!"w{x.2}={phaseLetter x.1.phase}")
+    s!"w{x.2}={if d.held.contains x.2 then "P" else phaseLetter x.1.phase}")
   let mg := if parked d then " mg:blocked" else ""
   -- a release that gave back more than was allocated can never match the real run: forced divergence
   let uf := if s.underflow then " MODEL-RELEASE-UNDERFLOW" else ""
@@ -141,8 +144,13 @@ def signalOK (d : D) (ids : List Id) : Option D :=
 
 /-- an update is also admitted when the only pending signal of the request is an update signal (2) -/
 def signalUpd (d : D) (ids : List Id) : Option D :=
-  if ids.any (fun i => sigOf d i == 1) then none
+  if ids.any (fun i => sigOf d i == 1 || sigOf d i == 3) then none
   else some (ids.foldl (fun d i => setSig d i 2) d)
+
+/-- likewise a further abort while the only pending signal is an error signal (3) -/
+def signalErr (d : D) (ids : List Id) : Option D :=
+  if ids.any (fun i => sigOf d i == 1 || sigOf d i == 2) then none
+  else some (ids.foldl (fun d i => setSig d i 3) d)
 
 -- ------------------------------------------------------------------ ops
 def apiResString : ApiRes → String
@@ -330,7 +338,7 @@ def execOp (d : D) (t : Toks) : D × String :=
   | ["cancel", _, _] =>
     match peerArg d t 1, idArg d t 2 with
     | some p, some id =>
-      match signalOK d (signalling d id [.running]) with
+      match signalErr d (signalling d id [.running]) with
       | none => (d, "refused")
       | some d1 => mgrOp d1 (.recv p (.cancel id))
     | _, _ => (d, "bad")
@@ -355,7 +363,7 @@ def execOp (d : D) (t : Toks) : D × String :=
   | ["rcancel", _] =>
     match idArg d t 1 with
     | some id =>
-      match signalOK d (signalling d id [.running]) with
+      match signalErr d (signalling d id [.running]) with
       | none => (d, "refused")
       | some d1 => mgrOp d1 (.api (.cancel id))
     | none => (d, "bad")
@@ -382,12 +390,37 @@ def execOp (d : D) (t : Toks) : D × String :=
           let s2 := runWorker 64 (settle s1) w
           let d1 := noteBlocked { d with s := s2 } w
           (d1, s!"w{w}:p{p}:r{id}:{workerState s2 w}")
+  | ["popq"] =>
+    if parked d then (d, "refused")
+    else if d.s.nWorkers != 0 && liveWorkers d.s ≥ d.s.nWorkers then (d, "busy")
+    else match choosePop d.s d.npeers with
+      | none =>
+        let top := (d.s.queues.map (·.peer)).foldl (fun (acc : Option Nat) p =>
+          match acc with | none => some p | some b => some (min b p)) none
+        match top with
+        | some p => ({ d with s := (step d.s (.reap p)).getD d.s }, "none")
+        | none => (d, "none")
+      | some (p, id) =>
+        match step d.s (.pop p id) with
+        | none => (d, "none")
+        | some s1 =>
+          let w := s1.workers.length - 1
+          -- withdraw the StartTask message the pop has just enqueued
+          let s2 := { s1 with mailbox := s1.mailbox.filter (· != .startTask w) }
+          ({ d with s := s2, held := d.held ++ [w] }, s!"w{w}:p{p}:r{id}:P")
   | ["step", _] =>
     if parked d then (d, "refused")
     else
       let wi := intArg t 1
       if wi < 0 then (d, "bad") else
       let w := wi.toNat
+      if d.held.contains w then
+        -- the held worker now sends StartTask
+        let s1 := sendMsg d.s (.startTask w)
+        let s2 := runWorker 64 (settle s1) w
+        let d1 := noteBlocked { d with s := s2, held := d.held.filter (· != w) } w
+        (d1, workerState s2 w)
+      else
       match workerOf d.s w with
       | none => (d, "bad")
       | some wk =>
@@ -410,7 +443,7 @@ def execOp (d : D) (t : Toks) : D × String :=
         match peerArg d t 1 with
         | some p =>
           if o == "fail" && !parked d then
-            signalOK d (((d.s.table.filter fun r => r.peer == p && r.state == .running).map (·.id)))
+            signalErr d (((d.s.table.filter fun r => r.peer == p && r.state == .running).map (·.id)))
           else some d
         | none => some d
       match pre with
